@@ -32,10 +32,10 @@ from harness import httpr_driver as D
 from harness import httpr_gen as G
 
 MC_Q = {"Modes": '{"server"}', "Heads": "{FALSE}", "RLs": "{1, 3}", "HOSTs": "{1, 4}", "FRs": "{1, 2, 3, 5}", "FR2s": "{1, 5}",
-        "XHs": "{1}", "BODYs": "{1, 2, 3, 4, 9}", "TAILs": "{1, 2}", "Dev": 1, "Sizes": "{1, 2, 5}",
+        "XHs": "{1}", "BODYs": "{1, 2, 3, 4, 9}", "TAILs": "{1, 2}", "Dev": 1, "Sizes": "{1, 4}",
         "Timeouts": "{TRUE}", "Shuts": "{TRUE}", "Responds": '{"sync", "async", "early", "earlydata"}'}
-GEN_Q = {"RLs": "{1, 2, 3, 5}", "HOSTs": "{1, 2, 4}", "FRs": "{1, 2, 3, 5, 9, 13}", "FR2s": "{1, 3, 5}", "XHs": "{1, 3}",
-         "BLANKs": "{1}", "BODYs": "{1, 2, 3, 4, 6, 9, 11, 18}", "TAILs": "{1, 2}", "Dev": 1}
+GEN_Q = {"RLs": "{1, 2, 3}", "HOSTs": "{1, 2}", "FRs": "{1, 2, 3, 5, 9}", "FR2s": "{1, 3, 5}", "XHs": "{1, 3}",
+         "BLANKs": "{1}", "BODYs": "{1, 2, 3, 4, 6, 9, 18}", "TAILs": "{1, 2}", "Dev": 1}
 GEN_T = {"RLs": "1..20", "HOSTs": "1..14", "FRs": "1..27", "FR2s": "1..7", "XHs": "1..14", "BLANKs": "{1, 2}",
          "BODYs": "1..26", "TAILs": "{1, 2, 3}", "Dev": 1}
 TREE_Q = {"RLs": "{1, 3}", "HOSTs": "{1}", "FRs": "{1, 2, 3}", "FR2s": "{1}", "XHs": "{1}", "BODYs": "{1, 2, 3}", "TAILs": "{1, 2}",
